@@ -130,6 +130,28 @@ def run_unit(unit, repo="/repo", workdir=None, canary=False, variant=None, keep=
             break
         open(out_rs, "wb").write(src_b)
         p = subprocess.run(cmd, capture_output=True, text=True, cwd=workdir, env=env)
+    # SMT instability guard: a unit with failed obligations is re-run with two other solver seeds; a proof found under any seed
+    # is a proof (the obligations are the same, only the search order differs).  A false obligation fails under every seed.
+    res["seed_retries"] = 0
+    if not canary:
+        for seed in ("17", "4711"):
+            try:
+                j0 = json.loads(p.stdout)
+                errs = j0.get("verification-results", {}).get("errors", 0)
+                hard = j0.get("verification-results", {}).get("verified", 0) == 0 and errs == 0 and p.returncode != 0
+            except Exception:
+                break
+            if errs == 0 or hard:
+                break
+            q = subprocess.run(cmd + ["--smt-option", "smt.random_seed=" + seed], capture_output=True, text=True, cwd=workdir, env=env)
+            res["seed_retries"] += 1
+            try:
+                j1 = json.loads(q.stdout)
+                if j1.get("verification-results", {}).get("errors", 1) == 0 and j1.get("verification-results", {}).get("verified", 0) > 0:
+                    p = q
+                    break
+            except Exception:
+                pass
     res["verus_exit"] = p.returncode
     try:
         j = json.loads(p.stdout)
